@@ -140,7 +140,13 @@ class Runner(object):
         if spec['how'] == 'noncanon' and o0['bits'] > 2 ** 16:
             return
         try:
+            import math
+            has_nan = any(isinstance(v, float) and not math.isfinite(v) for v in (getattr(db.array, 'data', []) if db.array is not None else []).tolist())
+            if has_nan:                      # decided from the INPUT: NaN - NaN and inf - inf are NaN, so == says nothing there
+                self.dist['eq_skipped_nan_values'] = self.dist.get('eq_skipped_nan_values', 0) + 1
+                return
             if not (db == db):
+                self.fail('%s: the saved database is not == itself' % what, pl, key)
                 return
             self.dist['eq_checks'] += 1
             self.direct()
@@ -607,7 +613,11 @@ def witnesses(R):
     R.add('witness/nul-name/not-wf', 'negb (wfb %s)' % G.dblit(o0), {'names': o0['names']}, 'wfb %s' % G.dblit(o0))
     lost = G.diff_fields(o0, o1)
     msg = 'fingerprint name %r reloads from .fpz as %r (fields changed: %s)' % (o0['names'][0], o1['names'][0], lost)
-    if lost and any(f.get('key') == 'savez:fp-name-trailing-nul' for f in ctx.findings):
+    recorded_outcome = o1['names'] == ['a', 'b'] and set(lost) <= {'names', 'index'}        # exactly: the trailing NUL is gone, nothing else changed
+    if lost and not recorded_outcome:
+        ctx.fail('a database with the name %r reloads from .fpz with OTHER changes than the recorded loss of the trailing NUL: %s' % (o0['names'][0], lost),
+                 {'names': o0['names'], 'reloaded': o1['names'], 'fields_changed': lost})
+    elif lost and any(f.get('key') == 'savez:fp-name-trailing-nul' for f in ctx.findings):
         ctx.fail(msg, {'names': o0['names'], 'reloaded': o1['names']}, finding_key='savez:fp-name-trailing-nul')
     else:
         ctx.notes.append(msg + ' - excluded by the hypothesis `wfb` (names without trailing NUL) of load_savez_id; witness load_savez_nul_refuted')
